@@ -77,7 +77,7 @@ def style_of(name: str):
 def request(draw, with_contributors=True, max_holders=3):
     """What is asked of one annotate invocation."""
     # copyright holders may end in any punctuation ("Yahoo!", "Team C#"): the notice reader keeps such tails
-    holders = draw(st.lists(V.holder(), min_size=0, max_size=max_holders, unique=True))
+    holders = draw(st.lists(V.holder(markers=True), min_size=0, max_size=max_holders, unique=True))
     licences = draw(st.lists(V.expression(1), min_size=0, max_size=2, unique=True))
     contributors = draw(st.lists(V.safe_holder(), min_size=0, max_size=2, unique=True)) if with_contributors else []
     if not (holders or licences or contributors):
